@@ -125,7 +125,18 @@ def print_stmt(s, rng=None, indent='  '):
     elif s[0] == 'e':
         txt = f'{indent}{nm(s[1])} := {nm(s[2])};\n'
     else:
-        args = [f'{nm(f)} := {nm(v)}' for f, v in s[2]] + [nm(p) for p in s[3]] + [f'{nm(o)} => {nm(t)}' for o, t in s[4]]
+        ins = [f'{nm(f)} := {nm(v)}' for f, v in s[2]] + [nm(p) for p in s[3]]
+        outs = [f'{nm(o)} => {nm(t)}' for o, t in s[4]]
+        args = ins + outs
+        if rng is not None and outs and rng.random() < 0.6:
+            # outputs may stand anywhere in the argument list (before, between, after the inputs); the inputs keep their order
+            k = rng.choice(['first', 'mixed'])
+            if k == 'first': args = outs + ins
+            else:
+                args, a, b = [], list(ins), list(outs)
+                while a or b:
+                    src = a if (a and (not b or rng.random() < 0.5)) else b
+                    args.append(src.pop(0))
         txt = f"{indent}{nm(s[1])}({', '.join(args)});\n"
     if rng is not None:
         depth = rng.choice([0, 0, 1, 2, 3])
